@@ -53,15 +53,17 @@ LEVEL_TEXT = ('Machine-checked: for programs of any size, a permutation that kee
               'the scheduling theorem also holds for arbitrary execution orders (trace_permutation_invariant) and for programs with an '
               'intermediate commit after a closed prefix, at store level and over the C04 commit model applied per segment '
               '(closed_prefix_commit_equiv, table_programs_segmented, commit_segs_runs_schedules, commit_model_segmented_invariant); '
-              'closedness is necessary (open_cut_differs).')
+              'closedness is necessary (open_cut_differs); the same for ANY number of intermediate commits with closed cuts '
+              '(closed_segs_commit_equiv, closed_segs_two_cuttings_agree, table_programs_closed_segs, commit_segs_runs_all, '
+              'commit_model_closed_segs_invariant).')
 LEVEL_NOTE = ('PARTIAL by design: equality of whole applications is validated (metamorphic run), not proved. H2 rests on the declared '
               'read table (what the action CALLABLES read/write: monitored at run time, not translated; their text is pinned, names '
               'blanked, in closure_pins.json). Members of TopologicalSorter containers placed by explicit constraints are modelled as '
               'commuting (sorted-insertion) writes; unconstrained ones as appends. Translated mechanically: which '
               'actions each directive declares, and the queuing/autocommit path of Configurator.action. Not translated (shape-pinned): '
               'execute_actions/resolveConflicts (C04 model), Configurator.include, setup_registry, MultiView.add, PredicateList.add/make, '
-              'view derivers, TopologicalSorter, Tweens. Intermediate commits: proved for ONE cut after a closed prefix (the model '
-              're-checks closedness per variant); more cuts are not generated. add_notfound_view(append_slash=True) derives its '
+              'view derivers, TopologicalSorter, Tweens. Intermediate commits: proved for any number of closed cuts; the generated variants have at most '
+              'one cut (the model re-checks its closedness per variant). add_notfound_view(append_slash=True) derives its '
               'wrapped view at the statement from what is committed so far: order independent inside one commit only (such programs '
               'get no intermediate commit).')
 
